@@ -87,6 +87,48 @@ def with_delimiters(rng, seqs, tail, blocklimit):
     return res
 
 
+def dict_parse_case(rng):
+    """formatted dictionary (offset-code table limited to what the first block can need) + hand-made parse over several 128 KiB blocks:
+    Huffman-compressible literal runs, near matches, and matches into the start of the dictionary whose distance grows with every block"""
+    import dictgen
+    content = datagen.randbytes(rng, rng.choice([40000, 100000, 120000, 126000]))
+    d, _ = dictgen.build_exact_of(rng, content)
+    alpha = [rng.randrange(256) for _ in range(rng.choice([4, 16, 60]))]
+    nblocks = rng.choice([2, 3, 3, 4])
+    x = bytearray(); seqs = []
+    for b in range(nblocks):
+        size = 131072 if b + 1 < nblocks or rng.random() < 0.5 else rng.randint(20000, 131072)
+        nseq = rng.choice([3, 20, 100, 300, 900]) if rng.random() < 0.85 else rng.choice([1100, 2500])
+        start = len(x)
+        lit = 0
+        for _ in range(nseq):
+            room = size - (len(x) - start)
+            if room < 2200:
+                break
+            ll = min(rng.choice([0, 1, 30, 200, size // max(1, nseq)]), room - 2100)
+            x += bytes(alpha[min(int(rng.expovariate(0.4)), len(alpha) - 1)] for _ in range(ll)); lit += ll
+            pos = len(x)
+            if rng.random() < 0.5:
+                st = rng.randrange(0, min(len(content), 30000)); ml = rng.choice([5, 8, 40, 300, 2000]); ml = min(ml, len(content) - st)
+                off = len(content) + pos - st
+                x += content[st:st + ml]
+            else:
+                off = rng.choice([1, 2, 7, rng.randint(1, max(1, min(pos, 70000)))]) if pos else 0
+                ml = rng.choice([5, 6, 20, 150])
+                off = min(off, pos)
+                if not off:
+                    continue
+                for _k in range(ml):
+                    x.append(x[-off])
+            seqs.append((off, lit, ml)); lit = 0
+        rest = size - (len(x) - start)
+        x += bytes(alpha[min(int(rng.expovariate(0.4)), len(alpha) - 1)] for _ in range(rest))
+        seqs.append((0, lit + rest, 0))
+    p = {100: rng.choice([1, 1, 2, 3, 4, 7]), 101: 21, 1008: 1, 1009: 1}
+    if rng.random() < 0.3: p[201] = 1
+    return bytes(x), p, seqs, d
+
+
 def sstr(seqs):
     return ",".join("%d:%d:%d" % s for s in seqs) or "-"
 
@@ -140,6 +182,11 @@ def correspondence(ctx):
                 if parts[-1].startswith("0:") and parts[-1].endswith(":0"):
                     g = ",".join(parts[:-1]) or "-"
             lines.append("cseq %s %s %s" % (frames.pstr(p), frames.hx(x), g)); meta.append((x, p, "ZSTD_generateSequences" + (" + merge" if merge else "")))
+    dictof = {}
+    for i in range(24 if ctx.quick() else 400):
+        x, p, sq, d = dict_parse_case(rng)
+        dictof[len(lines)] = d
+        lines.append("cseq %s %s %s %s" % (frames.pstr(p), frames.hx(x), sstr(sq), frames.hx(d))); meta.append((x, p, "hand-made parse over a formatted dictionary"))
     outc = frames.parallel(lambda ch: [frames.run_lines(exe, ch, timeout=1800)], frames.split_chunks(lines, 16))
     res = []
     for rc, out, err in outc:
@@ -148,15 +195,16 @@ def correspondence(ctx):
             ctx.violation("sanitizer build aborted in ZSTD_compressSequences on a VALID parse: %s" % err[-600:], dict(kind="monitor", stderr=err[-3000:]))
     dl, cl, wl_, keep = [], [], [], []
     refused = 0
-    for (x, p, how), ln, f in zip(meta, lines, res):
+    for k_, ((x, p, how), ln, f) in enumerate(zip(meta, lines, res)):
         ev += 1
+        dh = frames.hx(dictof[k_]) if k_ in dictof else None
         if f.startswith("err"):
             refused += 1
             ctx.violation("a valid parse (%s) was refused: %s  params %s" % (how, f, frames.pstr(p)), dict(kind="monitor", op=ln[:400000], result=f))
             if len(ctx.violations) >= 4:
                 break
             continue
-        dl.append("dec %d %s" % (len(x), f)); cl.append("conform %s %s - %d 0" % (f, frames.hx(x), p.get(1015, 0))); wl_.append("xxh " + frames.hx(x)); keep.append((x, p, how, ln))
+        dl.append("dec %d %s%s" % (len(x), f, (" " + dh) if dh else "")); cl.append("conform %s %s %s %d 0" % (f, frames.hx(x), dh or "-", p.get(1015, 0))); wl_.append("xxh " + frames.hx(x)); keep.append((x, p, how, ln))
     cd = frames.parallel(lambda ch: frames.run_lines(plain, ch)[1], frames.split_chunks(dl, 16))
     cf = frames.parallel(lambda ch: frames.model_lines(ch), frames.split_chunks(cl, 16))
     ww = frames.parallel(lambda ch: frames.run_lines(plain, ch)[1], frames.split_chunks(wl_, 16))
